@@ -63,6 +63,50 @@ def run(run):
     imgrep.check(run, "C15.R6")
 
 
+def _norm_reduction(t):
+    """Normal form of a whole-array test: `not any(P)` is `all(not P)` (and the reverse); broadcasting a mask to the pixel shape or
+    giving it a trailing unit axis does not change which elements are tested; `x.any()` / `x.all()` are np.any(x) / np.all(x)."""
+    def strip(x):
+        while True:
+            if x[0] == "call" and show(x[1]) in ("np.broadcast_to",) and x[2]:
+                x = x[2][0]
+                continue
+            if x[0] == "sub" and x[2][0] == "tuple" and any(show(i_) == "Ellipsis" or i_ == ("const", Ellipsis) for i_ in x[2][1]) and any(i_ == sym.NONE for i_ in x[2][1]) \
+                    and not [i_ for i_ in x[2][1] if not (show(i_) == "Ellipsis" or i_ == ("const", Ellipsis) or i_ == sym.NONE)]:
+                x = x[1]
+                continue
+            return x
+
+    def neg(x):
+        x = strip(x)
+        if x[0] == "op" and x[1] in ("invert", "not") and x[2]:
+            return strip(x[2][0])
+        if x[0] == "call" and show(x[1]) == "np.logical_not" and x[2]:
+            return strip(x[2][0])
+        if x[0] == "op" and x[1] in ("cmp:NotEq", "cmp:Eq") and len(x[2]) == 2:
+            return sym.cmp("Eq" if x[1] == "cmp:NotEq" else "NotEq", x[2][0], x[2][1])
+        return ("op", "invert", (x,))
+
+    def red(x):
+        # -> (name, arg) for np.any(arg) / np.all(arg) / arg.any() / arg.all() without axis
+        if x[0] == "call" and show(x[1]) in ("np.any", "np.all") and len(x[2]) == 1 and not x[3]:
+            return show(x[1])[3:], x[2][0]
+        if x[0] == "call" and x[1][0] == "attr" and x[1][2] in ("any", "all") and not x[2] and not x[3]:
+            return x[1][2], x[1][1]
+        return None
+    if t is None:
+        return t
+    if t[0] == "op" and t[1] == "not" and t[2]:
+        r_ = red(t[2][0])
+        if r_ is not None:
+            other = "all" if r_[0] == "any" else "any"
+            return ("call", ("attr", ("sym", "np"), other), (neg(r_[1]),), ())
+    r_ = red(t)
+    if r_ is not None:
+        return ("call", ("attr", ("sym", "np"), r_[0]), (strip(r_[1]),), ())
+    return t
+
+
 def _enum_members(project):
     cls, mod = project.cls(IMG + ".ImageMode")
     out = []
@@ -94,7 +138,55 @@ def _mode_decider(kind, mode):
             return t[2]
         return None
 
+    planes = mode in ("RGB", "RGBA", "F16x3")
+
+    def ndim_of(t):
+        """Number of axes of a pixel-array expression of an image of this mode (2, or 3 for the modes with colour planes)."""
+        if t[0] == "attr" and t[2] == "ndim":
+            return ndim_of(t[1])
+        if t[0] == "call" and t[1] == ("sym", "len") and len(t[2]) == 1 and t[2][0][0] == "attr" and t[2][0][2] == "shape":
+            return ndim_of(t[2][0][1])
+        if t[0] == "op" and t[1] in ("invert", "not") and t[2]:
+            return ndim_of(t[2][0])
+        if t[0] == "op" and t[1].startswith("cmp:") and len(t[2]) == 2:
+            ds = [ndim_of(x) for x in t[2] if not sym.is_num(x) and x[0] != "const"]      # element-wise comparison with a scalar
+            return ds[0] if len(ds) == 1 else (max(ds) if ds and None not in ds else None)
+        if t[0] == "call" and show(t[1]) in ("np.isnan", "np.logical_not", "np.isfinite", "np.asarray", "np.array") and t[2]:
+            return ndim_of(t[2][0])
+        if t[0] == "call" and show(t[1]) in ("np.all", "np.any") and t[2]:
+            ax = dict(t[3]).get("axis", t[2][1] if len(t[2]) > 1 else None)
+            inner = ndim_of(t[2][0])
+            if inner is None:
+                return None
+            return inner - 1 if ax is not None and ax != sym.NONE else 0
+        if t[0] == "ite":
+            a_, b_ = ndim_of(t[2]), ndim_of(t[3])
+            return a_ if a_ == b_ else None
+        if t[0] == "sub":
+            idx = t[2][1] if t[2][0] == "tuple" else (t[2],)
+            base = ndim_of(t[1])
+            if base is None:
+                return None
+            if any(show(x) == "Ellipsis" or x == ("const", Ellipsis) for x in idx):
+                drop = sum(1 for x in idx if num_value(x) is not None)
+                add = sum(1 for x in idx if x == sym.NONE)
+                return base - drop + add
+            if all(x[0] in ("sym", "slice") or (x[0] == "call" and x[1] == ("sym", "slice")) for x in idx):
+                return base        # slices / index arrays handed in by the caller keep the two pixel axes
+            return None
+        s_ = show(t)
+        if s_.endswith(".asarray()") or "._array" in s_ or s_.endswith("._pil") or "np.asarray(self._pil)" in s_:
+            return 3 if planes else 2
+        return None
+
     def decide(c):
+        if c[0] == "op" and c[1] in ("cmp:Lt", "cmp:LtE", "cmp:Eq", "cmp:NotEq") and len(c[2]) == 2 and any(
+                x[0] == "attr" and x[2] == "ndim" for x in c[2]):
+            va = ndim_of(c[2][0]) if not sym.is_num(c[2][0]) else int(num_value(c[2][0]))
+            vb = ndim_of(c[2][1]) if not sym.is_num(c[2][1]) else int(num_value(c[2][1]))
+            if va is not None and vb is not None:
+                return {"cmp:Lt": va < vb, "cmp:LtE": va <= vb, "cmp:Eq": va == vb, "cmp:NotEq": va != vb}[c[1]]
+            return None
         if c[0] != "op" or not c[1].startswith("cmp:"):
             return None
         op = c[1][4:]
@@ -256,7 +348,7 @@ def _r2_conventions(run, members, results):
         f = project.fn(q_mask)
         r = results[(q_mask, mode)]
         rets = r.returns
-        t = rets[0][1] if len(rets) == 1 else None
+        t = _norm_reduction(rets[0][1]) if len(rets) == 1 else None
         s_ = show(t) if t is not None else "%d returns" % len(rets)
         if mode == "RGB" or mode in INTS:
             if t != sym.FALSE:
@@ -650,6 +742,13 @@ def _r5_persistence(run):
         rel = [c for c in e.pc[(idx[-1] + 1 if idx else 0):] if c[0] != "loop"]
         en = [a for c in rel for a in atoms_of(c[0]) if a[0] == "attr" and a[2] == "errno"]
         if en and boolalg.equiv(boolalg.conj(rel), sym.cmp("NotEq", en[0], num(2))) is True:
+            errno_ok = True
+    if not errno_ok:
+        # the other spelling of "only errno 2": the handler around the load catches FileNotFoundError and nothing wider
+        loads = [c_ for c_ in own_calls(g.node) if callee_attr(c_) in ("load_path", "load_stream", "open", "load")]
+        tries = [t_ for t_ in own_nodes(g.node) if isinstance(t_, ast.Try) and any(x is c_ for c_ in loads for b_ in t_.body for x in ast.walk(b_))]
+        if tries and all(t_.handlers and all(h_.type is not None and {(dotted(e_) or "").split(".")[-1] for e_ in (h_.type.elts if isinstance(h_.type, ast.Tuple) else [h_.type])}
+                                              == {"FileNotFoundError"} for h_ in t_.handlers) for t_ in tries):
             errno_ok = True
     if not errno_ok:
         problems.append(("read-errno", "I/O errors other than 'no such file' (errno 2) are no longer re-raised: a corrupt or unreadable tile reads as missing"))
